@@ -83,11 +83,11 @@ def exact_statement : Prop :=
 def identityWitness : Req :=
   { table := "t1", column := "c1", schema := none,
     type_ := none, nullable := none, serverDefault := .set (.plain "'5'"), newName := none, comment := .unset,
-    autoinc := none, exType := none, exNullable := none, exDefault := .set (.identity false none),
+    autoinc := none, exType := none, exNullable := none, exDefault := .set (.identity false none []),
     exComment := none, exAutoinc := none, usingE := none }
 
 def identityWitnessInit : ColState :=
-  { name := "c1", ty := "INTEGER", nullable := false, default := some (.identity false none),
+  { name := "c1", ty := "INTEGER", nullable := false, default := some (.identity false none []),
     comment := none, autoinc := false }
 
 /-- PostgreSQL's identity visitor treats every request that involves an `Identity` and whose
@@ -205,13 +205,19 @@ theorem exact_postgresql_identity (r : Req) (init : ColState)
 diff takes an identity column with the stated options to the requested identity and touches no
 other attribute. -/
 theorem pg_identity_alter (t : TRef) (s : ColState) (ma ia : Bool) (ms is : Option Nat)
-    (hd : s.default = some (.identity ia is)) :
-    ∃ st, compile .postgresql t s.name (.identityDefault (some (.identity ma ms)) (.set (.identity ia is))) = .ok st ∧
-      defaultIs (applyStmt s st).default (.identity ma ms) = true ∧
+    (me ie : List (String × String))
+    (hd : s.default = some (.identity ia is ie)) :
+    ∃ st, compile .postgresql t s.name (.identityDefault (some (.identity ma ms me)) (.set (.identity ia is ie))) = .ok st ∧
+      defaultIs (applyStmt s st).default (.identity ma ms me) = true ∧
       applyStmt s st = { s with default := (applyStmt s st).default } :=
-  pg_identity_alter_ok t s ma ia ms is hd
+  pg_identity_alter_ok t s ma ia ms is me ie hd
 
-example : identitySupported { sampleReq with serverDefault := .set (.identity true (some 2)), exDefault := .drop } = true := by
+/-- the checker rejects an identity alter that drops a requested option (`SET NO MINVALUE` missing) -/
+example : defaultIs (applyStmt ⟨"c", "INTEGER", false, some (.identity false none [("cycle", "True")]), none, false⟩
+      (.identityAlter ⟨none, "t"⟩ "c" none none [])).default
+    (.identity false none [("nominvalue", "True")]) = false := by decide
+
+example : identitySupported { sampleReq with serverDefault := .set (.identity true (some 2) []), exDefault := .drop } = true := by
   decide
 
 /-- the hypotheses are satisfiable -/
@@ -368,8 +374,8 @@ theorem no_spurious_refusal (d : Dialect) (r : Req) (h : mustSucceed d r = true)
 type; dropping a stated identity is expressible on PostgreSQL and not on MSSQL -/
 example : mustSucceed .mysql sampleReq = true ∧ mustSucceed .mssql sampleReq = true ∧
     mustSucceed .postgresql sampleReq = true := by decide
-example : mustSucceed .postgresql { sampleReq with serverDefault := .drop, exDefault := .set (.identity false none) } = true ∧
-    mustSucceed .mssql { sampleReq with serverDefault := .drop, exDefault := .set (.identity false none) } = false := by
+example : mustSucceed .postgresql { sampleReq with serverDefault := .drop, exDefault := .set (.identity false none []) } = true ∧
+    mustSucceed .mssql { sampleReq with serverDefault := .drop, exDefault := .set (.identity false none []) } = false := by
   decide
 
 /-! ## dialects that cannot express a requested change raise -/
@@ -401,7 +407,7 @@ theorem identity_unsupported_raises (d : Dialect) (r : Req) (hd : d ≠ .postgre
   · simp [hi]
 
 /-- non-vacuity -/
-example : (alterColumn .mssql { sampleReq with serverDefault := .set (.identity true (some 2)) }).err
+example : (alterColumn .mssql { sampleReq with serverDefault := .set (.identity true (some 2) []) }).err
     = some .compileError := by decide
 
 end C13
